@@ -61,3 +61,10 @@ prop('C10', technique='contract-based deductive verification of the error-state 
      assumptions=['statement records of the debug section are those of C11'],
      not_covered=['statement atomicity (operand-stack truncation on resume) is not implemented by the VM at all: see DESIGN known findings',
                   'errors inside procedures while the handler lives at module level'])
+prop('C09', technique='contract-based deductive verification: inverse-pair contracts (encode/decode, assembler vs the machine decoder) over '
+                      'symbolic operand values with a bit-precise byte-string model; syntactic writer/reader format cross-check',
+     explanation='operand codecs, every instruction of the table assembled by the real assembler and decoded by the real machine decoder '
+                 '(all operand values symbolic), jump targets = instruction starts, variable operands = layout indices inside their storage',
+     assumptions=['gzip+pickle debug section round-trips (library)'],
+     not_covered=['disassembler text and whole-section round trip only as bounded stand-ins', 'listing writer __str__',
+                  'frame operand computed lazily after all generators ran (generator side)'])
